@@ -97,6 +97,51 @@ func vWasProcessed(a *Agent, b *protocol.BatchSnapshots) bool {
 	return atomic.LoadInt32(&tf.others) == 0
 }
 
+// a task manager that refuses every task of the second factory (a full queue, a manager that is shutting down)
+type vRefusingTM struct{ n int32 }
+
+func (t *vRefusingTM) Start() {}
+func (t *vRefusingTM) Stop()  {}
+func (t *vRefusingTM) Add(Task) error {
+	if atomic.AddInt32(&t.n, 1)%2 == 0 {
+		return context.DeadlineExceeded
+	}
+	return nil
+}
+func (t *vRefusingTM) Len() int { return 0 }
+
+// VRedeliverRefusing: an agent with two task factories whose task manager accepts the first factory's task and refuses the
+// second's; the same batch arrives `times` times. Returns how many tasks each factory created for the batch.
+func VRedeliverRefusing(c Cache, b *protocol.BatchSnapshots, times int) (int, int) {
+	a := bareAgent(NewPeer("self", "127.0.0.1", 1, "monitor"), NewTopology())
+	a.Cache = c
+	a.Tasks = &vRefusingTM{}
+	a.In = MessageBus{log: a.log}
+	a.Out = MessageBus{log: a.log}
+	sentinel := time.Now().Format(time.RFC3339Nano) + "/verif-sentinel-2"
+	f1 := &vCountTF{sentinel: sentinel, done: make(chan struct{}, 1)}
+	f2 := &vCountTF{sentinel: sentinel, done: make(chan struct{}, 1)}
+	p := NewBatchProcessor(a, []TaskFactory{f1, f2}, log.L())
+	ch := make(chan *Message, times+1)
+	p.Subscribe(0, ch)
+	defer p.Stop()
+	payload, err := b.Encode()
+	if err != nil {
+		return 0, 0
+	}
+	for i := 0; i < times; i++ {
+		ch <- &Message{Kind: BatchMessageType, TTL: 0, Payload: payload}
+	}
+	sent := &protocol.BatchSnapshots{Snapshots: []*protocol.SignedSnapshot{{Snapshot: &protocol.Snapshot{Version: atomic.AddUint64(&vSentinel, 1)}, Signature: []byte(sentinel)}}}
+	sp, _ := sent.Encode()
+	ch <- &Message{Kind: BatchMessageType, TTL: 0, Payload: sp}
+	select {
+	case <-f2.done:
+	case <-time.After(10 * time.Second):
+	}
+	return int(atomic.LoadInt32(&f1.others)), int(atomic.LoadInt32(&f2.others))
+}
+
 // VWasProcessed: was the batch processed before, on an agent with the given cache (nil = no cache)?
 func VWasProcessed(c Cache, b *protocol.BatchSnapshots) bool {
 	a := bareAgent(NewPeer("self", "127.0.0.1", 1, "auditor"), NewTopology())
